@@ -175,7 +175,7 @@ func runCase(c Case) *ev.Verdict {
 				twin.AddEntry(ni, op)
 			}
 		}); p != "" {
-			v.Fail("C12/panic:"+l1.TopFrame(p), "%s %s panics inside the RIB: %s", c.Class, c.Text, p)
+			v.Fail(l1.Sig("C12", p), "%s %s panics inside the RIB: %s", c.Class, c.Text, p)
 			v.NonTrivial = true
 			return v
 		}
